@@ -42,6 +42,17 @@ def replay_search_failure(ck, B, h, N):
     c = m.get('c', 0)
     nat = common.Native()
     why = zoneref.judge_search(nat, z, c)
+    if not why:
+        # the harness hands the search a buffer holding stale entries of an earlier search: compare the buffer-based list with the
+        # allocating one natively under the same condition (unique / earliest / latest / data must ignore stale slots)
+        import calref
+        if calref.MIN_T <= c <= calref.MAX_T:
+            y, mo, d, hh, mi, sec = calref.gmtime(c)[:6]
+            for blen in range(0, N + 4):
+                cmd = f'c17 {z.cmd()} {y} {mo} {d} {hh} {mi} {sec} 5 {blen}'
+                for o in nat.both([cmd])[0]:
+                    if (o.startswith('DIFF') or o.startswith('panic')) and not why:
+                        why = (f'zone [{z.cmd()}], local time {y}-{mo}-{d} {hh}:{mi}:{sec}, caller buffer of length {blen} holding stale entries: {o}', {'cmd': cmd, 'kind': 'stale-buffer'})
     if why:
         ck.violation(f'{h.name}: {why[0]}', why[1])
     else:
